@@ -1364,6 +1364,10 @@ func (c *Conn) readLine() (string, error) {
 	if err != nil {
 		return "", err
 	}
+	if c.server.MaxLineLength > 0 && len(line) > c.server.MaxLineLength {
+		// Read ahead while the limit was lifted for a BDAT chunk.
+		return "", ErrTooLongLine
+	}
 	line = line[:len(line)-1]
 	if strings.HasSuffix(line, "\r") {
 		line = line[:len(line)-1]
